@@ -9,7 +9,9 @@ Definition peeked_to (v v' : view) (m : N) : Prop :=
   vS v' = vS v /\ vfail v' = vfail v /\ vcur v' = vcur v /\ vmark v' = vmark v /\ vtaken v' = vtaken v /\
   vreq v' = N.max (vreq v) m /\
   (* the end of the input has been seen iff some peek went beyond it *)
-  vknown v' = vknown v || (nlen (vS v) <? m).
+  vknown v' = vknown v || (nlen (vS v) <? m) /\
+  (* what is known to be buffered: everything up to the highest offset asked for, or the whole stream *)
+  vhwm v' = if nlen (vS v) <? m then nlen (vS v) else N.max (vhwm v) m.
 
 Lemma vpeek_none_iff v k : vpeek v k = None <-> nlen (vS v) < vcur v + k + 1.
 Proof.
@@ -18,19 +20,29 @@ Qed.
 
 Lemma peeked_after_peek v k : peeked_to v (after_peek v k) (vcur v + k + 1).
 Proof.
-  repeat split. cbn [after_peek vknown vS]. destruct (vpeek v k) eqn:E.
+  unfold peeked_to. cbn [after_peek vS vfail vcur vmark vtaken vreq vknown vhwm].
+  split; [reflexivity|]. split; [reflexivity|]. split; [reflexivity|]. split; [reflexivity|]. split; [reflexivity|].
+  split; [reflexivity|].
+  destruct (vpeek v k) eqn:E.
   - assert (H : ~ nlen (vS v) < vcur v + k + 1) by (rewrite <- vpeek_none_iff; congruence).
-    assert ((nlen (vS v) <? vcur v + k + 1) = false) as -> by (apply N.ltb_ge; lia). rewrite orb_false_r. reflexivity.
-  - apply vpeek_none_iff in E. apply N.ltb_lt in E. rewrite E. rewrite orb_true_r. reflexivity.
+    assert ((nlen (vS v) <? vcur v + k + 1) = false) as -> by (apply N.ltb_ge; lia). rewrite orb_false_r. split; reflexivity.
+  - apply vpeek_none_iff in E. apply N.ltb_lt in E. rewrite E. rewrite orb_true_r. split; reflexivity.
 Qed.
 
 Lemma peeked_trans v v1 v2 m1 m2 :
   peeked_to v v1 m1 -> peeked_to v1 v2 m2 -> peeked_to v v2 (N.max m1 m2).
 Proof.
-  intros (a1 & a2 & a3 & a4 & a5 & a6 & a7) (b1 & b2 & b3 & b4 & b5 & b6 & b7).
-  repeat split; try congruence.
-  - rewrite b6, a6. lia.
-  - rewrite b7, a7, a1. rewrite <- orb_assoc. f_equal.
+  intros (a1 & a2 & a3 & a4 & a5 & a6 & a7 & a8) (b1 & b2 & b3 & b4 & b5 & b6 & b7 & b8).
+  unfold peeked_to.
+  split; [congruence|]. split; [congruence|]. split; [congruence|]. split; [congruence|]. split; [congruence|].
+  split; [rewrite b6, a6; lia|].
+  rewrite a1 in b7, b8.
+  split.
+  - rewrite b7, a7. rewrite <- orb_assoc. f_equal.
+    destruct (nlen (vS v) <? m1) eqn:E1; destruct (nlen (vS v) <? m2) eqn:E2;
+      destruct (nlen (vS v) <? N.max m1 m2) eqn:E3; try reflexivity;
+      rewrite ?N.ltb_lt, ?N.ltb_ge in *; lia.
+  - rewrite b8, a8.
     destruct (nlen (vS v) <? m1) eqn:E1; destruct (nlen (vS v) <? m2) eqn:E2;
       destruct (nlen (vS v) <? N.max m1 m2) eqn:E3; try reflexivity;
       rewrite ?N.ltb_lt, ?N.ltb_ge in *; lia.
@@ -145,8 +157,9 @@ Lemma fixed_from_spec pat : forall off i v,
 Proof.
   induction pat as [|p ps IH]; intros off i v.
   - cbn [fixed_from srun common_prefix]. change (nlen (@nil byte)) with 0. cbn [N.eqb]. rewrite N.add_0_r.
-    exists v. split; [reflexivity|]. repeat split; try lia.
-    destruct (nlen (vS v) <? 0) eqn:E0; [apply N.ltb_lt in E0; lia|rewrite orb_false_r; reflexivity].
+    exists v. split; [reflexivity|].
+    assert (E0 : (nlen (vS v) <? 0) = false) by (apply N.ltb_ge; lia).
+    unfold peeked_to. rewrite E0, orb_false_r. repeat split; lia.
   - cbn [fixed_from srun]. rewrite vpeek_rest.
     pose proof (peeked_after_peek v (off + i)) as Hp.
     assert (Hlen : nlen (p :: ps) = 1 + nlen ps) by (unfold nlen; cbn [length]; lia).
